@@ -5,7 +5,7 @@ import ast
 
 from spec import grammars as GR
 
-from .. import prov, rx, sites
+from .. import strlang, prov, rx, sites
 from ..absint import fmt_term
 from ..core import norm_src
 from ..model import need, own_nodes
@@ -48,27 +48,41 @@ def check(run):
     run.ob("R1-xml", "decoders.xml.XML_ESCAPE_RE/decimal-alternative", okd, w, "a decimal reference is a number 0-255 (bytes() accepts it)",
            f"the reference group admits {bad!r}" if words is not None else "the decimal alternative is not a finite language", mech="finite-language enumeration")
     run.note("xml_decimal_words", len(words) if words else None)
-    # tokenisation lemma
+    # tokenisation lemma and per-token conversion, read off the abstract interpretation of find_xml_hex: every int() conversion it
+    # reaches (through whatever helpers) is applied to a piece of  <match>.replace(PREFIX, b"").split(SEP)[:-1]
     ux = prog.fn("decoders.xml.unescape_xml")
-    DATA = ux.params[0]
-    rt = [n for n in own_nodes(ux.node) if isinstance(n, ast.Return)]
-    tok_ok = False
-    det = "unescape_xml does not have the replace/split shape"
+    fx = prog.fn("decoders.xml.find_xml_hex")
+    _hits, ixml, _n = sites.analysis(prog).run(fx)
+    ints = [r for r in ixml.conv_uses if r[2] == "int"]
     pre = sep = None
-    gen = None
-    if len(rt) == 1 and isinstance(rt[0].value, ast.Call) and common.is_name(rt[0].value.func, "bytes") and rt[0].value.args and \
-            isinstance(rt[0].value.args[0], (ast.GeneratorExp, ast.ListComp)):
-        gen = rt[0].value.args[0]
-        it = gen.generators[0].iter
-        # DATA.replace(P, b"").split(S)[:-1]
-        if isinstance(it, ast.Subscript) and isinstance(it.slice, ast.Slice) and it.slice.lower is None and prog.try_fold(xm, it.slice.upper) == -1 and \
-                isinstance(it.value, ast.Call) and isinstance(it.value.func, ast.Attribute) and it.value.func.attr == "split":
-            sep = prog.try_fold(xm, it.value.args[0]) if it.value.args else None
-            inner = it.value.func.value
-            if isinstance(inner, ast.Call) and isinstance(inner.func, ast.Attribute) and inner.func.attr == "replace" and common.is_name(inner.func.value, DATA) \
-                    and len(inner.args) == 2 and prog.try_fold(xm, inner.args[1]) == b"":
-                pre = prog.try_fold(xm, inner.args[0])
-    if isinstance(pre, bytes) and isinstance(sep, bytes) and pre and sep:
+    shapes = set()
+    conv = {}
+    det = "no int() conversion of a split piece of the match is reached from find_xml_hex"
+    for r in ints:
+        a0 = r[3][0] if r[3] else None
+        t = getattr(a0, "term", None)
+        bv = r[3][1] if len(r[3]) > 1 else r[4].get("base")
+        base = 10 if bv is None else getattr(bv, "value", None)
+        sl = False
+        if isinstance(t, tuple) and t[:1] == ("slice",) and len(t) == 4 and strlang._ci(t[2]) == 1 and t[3] is None:
+            t, sl = t[1], True
+        ok_piece = isinstance(t, tuple) and t[:2] == ("piece", "split") and t[3:] == ("nonlast",)
+        inner = t[2] if ok_piece else None
+        ok_repl = isinstance(inner, tuple) and inner[:1] == ("replace",) and len(inner) == 4 and inner[1][:1] == ("group",) and inner[1][2] == 0 and \
+            inner[2][:1] == ("const",) and inner[3] == ("const", b"")
+        if not (ok_piece and ok_repl):
+            shapes.add(prov.canon_mid(str(getattr(a0, "term", a0)))[:90])
+            continue
+        pre = inner[2][1]
+        sep = ixml.piece_sep.get(repr(inner))
+        known = getattr(r[5], "prefixes", {}) or {}
+        pos = known.get(repr(t))
+        neg = known.get("!" + repr(t))
+        conv[(sl, base)] = (pos, neg)
+    tok_ok = False
+    if shapes:
+        det = f"int() is applied to {sorted(shapes)}: not a piece of <match>.replace(PREFIX, b'').split(SEP)[:-1]"
+    if isinstance(pre, bytes) and isinstance(sep, bytes) and pre and sep and not shapes:
         alpha = rx.alphabet(g.dfa)
         shape = rx.dfa_of(rb"(?s)(?:" + _lit(pre) + rb"[^" + _cls(pre + sep) + rb"]+" + _lit(sep) + rb")+")
         in_shape = rx.included(c.dfa, shape)
@@ -76,19 +90,16 @@ def check(run):
         tok_ok = in_shape and disjoint
         det = f"prefix {pre!r}, separator {sep!r}: match language inside (prefix token separator)+ = {in_shape}; token alphabet disjoint from them = {disjoint}"
     run.ob("R2-xml-tokens", "decoders.xml.unescape_xml/tokenisation-lemma", tok_ok, f"{xm.rel}:{ux.lineno}",
-           "removing the prefix and splitting at the separator enumerates exactly the references of the matched run", det, mech="regex shape + alphabet disjointness")
-    conv_ok = False
-    if gen is not None and len(gen.generators) == 1 and not gen.generators[0].ifs and isinstance(gen.generators[0].target, ast.Name):
-        x = gen.generators[0].target.id
-        e = gen.elt
-        if isinstance(e, ast.IfExp):
-            t = norm_src(e.test)
-            hexc = norm_src(e.body)
-            decc = norm_src(e.orelse)
-            conv_ok = t in (f"{x}.startswith((b'x', b'X'))", f"{x}.startswith((b'X', b'x'))", f"{x}.lower().startswith(b'x')") and \
-                hexc in (f"int({x}[1:], base=16)", f"int({x}[1:], 16)") and decc in (f"int({x})", f"int({x}, 10)")
+           "removing the prefix and splitting at the separator enumerates exactly the references of the matched run", det,
+           mech="provenance terms of the conversions + regex shape + alphabet disjointness")
+    hexc = conv.get((True, 16))
+    decc = conv.get((False, 10))
+    conv_ok = set(conv) == {(True, 16), (False, 10)} and hexc is not None and decc is not None and \
+        hexc[0] is not None and set(hexc[0]) == {b"x", b"X"} and decc[1] is not None and set(decc[1]) == {b"x", b"X"}
     run.ob("R2-xml-tokens", "decoders.xml.unescape_xml/conversion", conv_ok, f"{xm.rel}:{ux.lineno}",
-           "a reference starting with x/X is read as hexadecimal after the x, any other as decimal", norm_src(gen.elt) if gen is not None else "", mech="expression-shape match")
+           "a reference starting with x/X is read as hexadecimal after the x, any other as decimal",
+           f"conversions reached: {sorted((('after the first byte' if k[0] else 'whole token'), k[1], v) for k, v in conv.items())}",
+           mech="int() records of the abstract interpreter with their dominating startswith knowledge")
 
     # ------------------------------------------------------------------ provenance of the four decoders
     table = [
